@@ -12,7 +12,7 @@ from . import c01
 from .indexfx import (DEPS, TASK, TASKID, TGTS, index_effects, register_effects, unregister_effects)
 
 PROP = "C02"
-FLOORS = {"C02.R1": 4, "C02.R2": 8, "C02.R3": 4, "C02.R4": 6, "C02.R5": 3, "C02.R6": 30, "C02.R7": 5, "C02.R8": 2}
+FLOORS = {"C02.R1": 4, "C02.R2": 8, "C02.R3": 4, "C02.R4": 6, "C02.R5": 3, "C02.R6": 30, "C02.R7": 5, "C02.R8": 2, "C02.R9": 5}
 META = {
     "explanation": "run_tasks executes its argument once each in the given order; toposort/_dfs is a reverse-post-order DFS with "
                    "a grow-only visited set (termination and at-most-once on cycles); no call on the assignment path falls back to "
@@ -205,6 +205,12 @@ def check(col: Collector):
         shared(col, "C02.R7", [c01._set_value_protocol],
                select=lambda o: construct_tag(o) in ("write-on-every-path", "propagate-after-write", "trigger-set"),
                why="a skipped propagation runs none of the tasks that depend on the assigned location")
+    # refresh()/clone()/copy() rebuild the scheduling indices: one left out of the reset keeps its old counts, registering again
+    # doubles them, unregister removes one -- a stale ordering edge survives and runs tasks outside the dependent set
+    with col.rule():
+        shared(col, "C02.R9", [c03._index_lists, c03._rebuild],
+               why="an index not reset before the tasks are registered again keeps doubled counts; the surplus edge survives a later "
+                   "unregister and triggers tasks that no longer depend on the assigned location")
     # a task that assigns through the manager from inside run() starts a nested update: its dependents run once per write
     from . import c18
     with col.rule():
